@@ -6,19 +6,19 @@ from relsim.profiles import PROFILES
 TEXT = {
  "C01": "Seeded search over iteration-engine histories (all six unary ops, chain, materialization, it<->it2 transfer, cursors pulled alternately with other clients' operations, upstream and column-function faults with one retry); every result compared as an ordered list with an independent history model. Sampling evidence, not proof; the right level because the space of operation interleavings and consumption schedules is unbounded.",
  "C02": "Seeded search over SQL-engine histories; every new relation is compiled and run on a real SQLite under both physical scan orders, with harness-owned (salted / colliding) column-tag hashes and shuffled inserts, and compared with the history model at the strength the determinacy gating allows (list / bag / count+sub-bag).",
- "C03": "Seeded search over multi-engine histories with every preferred-engine flag combination; each result is read by the tree interpreter and processed + executed by the real engines, and attributed to C03 only if the same call without the options does not show the same discrepancy; engine placement (transfer / require flags) checked on every call.",
+ "C03": "Seeded search over multi-engine histories (including calls applied on top of trees returned by process(), round trips with statically empty chain branches, slices issued through Slice(...).apply(rel, preferred_engine=...)) with every preferred-engine flag combination; each result is read by the tree interpreter and processed + executed by the real engines, and attributed to C03 only if the same call without the options - built, interpreted and executed too - does not show the same discrepancy; engine placement (transfer / require flags) checked on every call.",
  "C04": "In-run monitor inside the C03 workload: every commute() call the library makes while backtracking is captured and its answer (first/second/done) evaluated by the tree interpreter on the real target rows plus seeded permutations/duplications; a monitor, not a schedule/fault search - no seam or fault bears on commute().",
  "C05": "History workload skewed to adjacent same-kind operations, do-nothing operations and out-of-window slices; on every step the tree the library built is read with list semantics (tree interpreter) and executed, and compared with sequential application; a raise from then()/simplify() on individually valid operations is a violation. Monitor plus history model; no seam or fault bears on merging.",
  "C06": "Seeded search over histories in both engines and across engines with truthful but variously tight leaf bounds (exact/loose/zero-min/unbounded/doomed/identity); every executed result must have exactly the relation's columns as keys and a count within [min_rows,max_rows]; short-cut-affected results (join elision, empty short-circuit, chain pruning) are compared with the model that ignores all short-cuts.",
  "C07": "Crash-point enumeration inside seeded multi-engine histories: for every generated scenario a fault is placed at crossings of the transfer/materialize hooks (before / after the side effect), of DB statements (before / during via the SQLite progress handler / after) and of upstream row streams - every crossing (cap 64) in the thorough tier, sampled in quick - followed by one fault-free retry; fault-free batch checked separately. Input tree fingerprint, payload placement, hook arguments, attached payload contents and final rows are all checked.",
  "C08": "Seeded search for accepted-then-failing trees: every relation any factory accepts (SQL, iteration, multi-engine) is compiled and executed (through process() where needed); any exception after acceptance is a violation labelled with its phase. Known, recorded SQLite/engine limitations are recognised individually.",
  "C09": "Long interleaved histories (factory calls, executions, cursors, process, diagnostics, rejected and faulted calls) over one shared pool; after every step every earlier relation is re-fingerprinted (structure, columns, bounds, str, repr, hash, eq, per-operation flags, leaf payload content); same sequence rebuilt twice must be == with equal hash; compile/execute twice must repeat.",
- "C10": "Crash-point enumeration over histories of attach_payload / execute / process on trees sharing materialization nodes: payload ledger (write-once), attach on non-markers / occupied markers must raise TypeError, leaf and hook ledgers prove no upstream of a cached node is evaluated again and at most one completed evaluation per materialization, cached rows == model.",
+ "C10": "Crash-point enumeration over histories of attach_payload / execute / process on trees sharing materialization nodes (faults at hook / DB / row-stream / column-function crossings, including a column function leaking StopIteration, each followed by one retry): payload identity ledger (write-once), content ledger (rows / SQL payload struct of a cached node never change), attach on non-markers / occupied markers must raise TypeError, leaf and hook ledgers prove no upstream of a cached node is evaluated again, at most one completed evaluation per materialization, every evaluated materialization ends up cached, cached rows == model.",
  "C11": "Seeded search over SQL histories dense in total / non-total sorts and slices, executed under both physical scan orders so that the right window cannot appear by luck; ordered-list comparison whenever the model is order-determinate; join/chain/materialise on an un-sliced sort must raise; no binary operand or materialization target may carry a sort without a slice.",
  "C14": "Every tree returned by any factory call or by process() in multi-engine histories (3 engines, engine-restricted column function, all flag combinations, faulted/partial processing) is walked node by node (target/lhs/rhs/skip_to) against the structural invariants; documented no-ops must return the identical object.",
  "C15": "Histories of transfer chains among three engines with materializations that get processed (payload cached) at random points, then factory calls with every preferred-engine option on top: every locked node of an input that occurs in the output must be the identical object; round-trip / self transfers and re-materialisation checked by rows and node counts.",
  "C16": "Diagnostics.run on seeded trees of both engines without executor, with a truthful executor (answers from the tree interpreter, so the premise holds by construction) and with a real executor (process + run) that can fault; verdict compared with the emptiness of the tree in the same (canonical-order) world.",
- "C17": "Every SQL relation returned by a factory is checked for conform identity, idempotence and Select-marker coherence; raw trees assembled bottom-up with the dataclass constructors are conformed and executed under both scan orders against the model; trees re-conformed by process() are included.",
+ "C17": "Every SQL relation returned by a factory is checked for conform identity, idempotence and Select-marker coherence; for every such relation the raw tree of its history (assembled bottom-up with the dataclass constructors, no engine help) is conformed and executed under both scan orders against the model; conform is also applied to inner locked nodes that already carry a cached payload; trees re-conformed by process() are included.",
  "C18": "Consumption-schedule and fault enumeration on instrumented lazy leaves: starts / rows / closes are counted per leaf while execute() runs and during each of 1-3 iterations (with partial, abandoned and faulted iterations at every row boundary in the thorough tier); lazy trees must not touch leaves in execute(), eager nodes consume once, results repeat identically.",
  "C19": "Thread-schedule simulation: 1-5 real threads, one runnable at a time, pre-empted at every source line inside lsst.daf.relation under a seeded scheduler (biased to pre-empt inside get_relation_name), seeded uuid4 and clock; all names handed out in a run must be pairwise distinct across engines and start with their prefix. The only property that quantifies over thread schedules.",
  "C20": "For calls the model deems acceptable, single ill-typing edits are issued at any depth of multi-engine histories with every flag combination; the model confirms ill-formedness first; the call must raise the documented class from the factory itself and all earlier relations must fingerprint unchanged.",
